@@ -20,6 +20,7 @@
   objects carry only the properties the programs can observe.
 -/
 import OttoVerif.C01.FnSpec
+import OttoVerif.C01.CallModel
 namespace OttoVerif.C01.FnM
 open OttoVerif.C01.Fn
 
@@ -131,8 +132,8 @@ def deferM {α : Type} (m : M α) (f : St → St) : M α := fun σ =>
 
 /-! ## The heap -/
 
-def gObj : Nat := 0          -- rt.globalObject
-def objProto : Nat := 1      -- rt.global.ObjectPrototype
+def objProto : Nat := 0      -- rt.global.ObjectPrototype
+def gObj : Nat := 1          -- rt.globalObject
 def fnProto : Nat := 2       -- rt.global.FunctionPrototype
 def typeErrProto : Nat := 6
 def refErrProto : Nat := 7
@@ -147,15 +148,15 @@ def p101 (v : V) : Pty := ⟨v, true, false, true⟩
 def p110 (v : V) : Pty := ⟨v, true, true, false⟩
 def p111 (v : V) : Pty := ⟨v, true, true, true⟩
 
-def nativeFn (name : String) : Obj :=
-  { cls := "Function", proto := some fnProto, props := [("name", p000 (.str name)), ("length", p000 (.num 1))], val := .native name }
+def nativeFn (name : String) (length : Int) : Obj :=
+  { cls := "Function", proto := some fnProto, props := [("name", p000 (.str name)), ("length", p000 (.num length))], val := .native name }
 
 def initSt : St :=
-  { heap := [ { cls := "Object", proto := some objProto, props := [] },
-              { cls := "Object", proto := none, props := [] },
+  { heap := [ { cls := "Object", proto := none, props := [] },
+              { cls := "Object", proto := some objProto, props := [] },
               { cls := "Function", proto := some objProto,
                 props := [("call", p101 (.ref 3)), ("apply", p101 (.ref 4)), ("bind", p101 (.ref 5))], val := .native "proto" },
-              nativeFn "call", nativeFn "apply", nativeFn "bind",
+              nativeFn "call" 1, nativeFn "apply" 2, nativeFn "bind" 1,
               { cls := "Error", proto := some objProto, props := [("name", p101 (.str "TypeError"))] },
               { cls := "Error", proto := some objProto, props := [("name", p101 (.str "ReferenceError"))] },
               { cls := "String", proto := some objProto, props := [] },
@@ -165,10 +166,6 @@ def initSt : St :=
     scopes := [],
     labels := [],
     trace := [] }
-
-def lookupA {β : Type} (x : String) : List (String × β) → Option β
-  | [] => none
-  | (k, v) :: r => if k = x then some v else lookupA x r
 
 def St.obj? (σ : St) (a : Nat) : Option Obj := σ.heap[a]?
 def St.stash? (σ : St) (i : Nat) : Option Stash := σ.stashes[i]?
@@ -634,14 +631,11 @@ def newArgumentsObject (indexOfParameterName : List String) (stash : Nat) (lengt
   let _ ← defineProperty o "length" (p101 (.num length)) false
   pure o
 
-/-- cmpl_evaluate.go:28–50: which parameter name each argument index is joined to
-    (`indexOfParameterName[index] = name` after blanking every earlier index that had the name) -/
+/-- cmpl_evaluate.go:28–50: which parameter name each argument index is joined to (`""` = none).
+    The loop is the one CallModel.modelMap transcribes (`mapGo`: blank every earlier index that has the
+    name, then `indexOfParameterName[index] = name`, for the positions that received an argument). -/
 def indexOfParameterNames (params : List String) (nargs : Nat) : List String :=
-  ((List.range params.length).zip params).foldl (fun ipn (p : Nat × String) =>
-      if p.1 < nargs then
-        setNth (((List.range ipn.length).zip ipn).map fun (q : Nat × String) => if q.1 < p.1 && q.2 = p.2 then "" else q.2) p.1 p.2
-      else ipn)
-    (List.replicate nargs "")
+  (Call.modelMap params nargs).map fun o => o.getD ""
 
 /-- cmpl_evaluate.go:36–54: `rt.scope.lexical.setValue(name, value, false)` for every parameter -/
 def bindParams (lexical : Nat) : List String → List V → Nat → M Unit
